@@ -82,6 +82,9 @@ theorem printer_arms_pinned :
     (PrintWhitelist.pinnedArms.all fun p => exprArms.any fun a => a.1 == p.1 && a.2.1 == p.2) = true ∧
     (PrintWhitelist.pinnedFuncs.all fun p => printerFuncs.any fun f => f.1 == p.1 && f.2 == p.2) = true := by decide
 
+/-- every function of the fork's printer has the committed token text (golden table) -/
+theorem all_printer_functions_pinned : printerAllFuncs = PrintWhitelist.allFuncs := by decide
+
 /-- the printer takes precedences from go/token (the table of `goTables`) and uses the constants the model uses -/
 theorem printer_prec_is_token_precedence :
     printerPrecVia = "go/token.Token.Precedence" ∧ unaryUsesUnaryPrec = true ∧ postfixUsesHighestPrec = true ∧
